@@ -37,6 +37,7 @@ func (h *harness) knownReplays() {
 		nb, _ := os.ReadFile(path)
 		after, keys, err := libRead(string(nb))
 		still := !oc.OK() || err != nil || len(after) != 3 || after["big"] != long
+		h.longLinesOK = !still
 		h.rep.KnownReplay("writeback:long-line", still,
 			fmt.Sprintf("file a=1 / big=<5000 characters without '='> / z=2, SetValues{a:3}: the keys afterwards are %q (expected a, big, z)", keys))
 		h.rep.Count("known-replay")
@@ -73,6 +74,26 @@ func (h *harness) knownReplays() {
 		h.rep.KnownReplay("writeback:line-shape", !oc.OK() || err != nil || still,
 			fmt.Sprintf("file `k: v`, SetValues{k:\"\"} (delete): the file afterwards is %q, k reads %q", string(nb), after["k"]))
 		h.rep.Count("known-replay")
+	}
+	// the file disappears: the map goes back to the defaults — are the observers told?
+	{
+		dir, path := h.newDir()
+		writeFile(path, "k=2\n")
+		ce := newCfg(dir)
+		before := ce.obs.count
+		os.Remove(path)
+		ce.c.ReloadNowForVerif()
+		got := ce.c.GetValue("k")
+		h.notifyReset = ce.obs.count > before
+		ce.c.Destroy()
+		h.rep.KnownReplay("reload:reset-not-notified", !h.notifyReset,
+			fmt.Sprintf("file k=2 loaded (observer calls: %d), file deleted, reload: k now reads %q (defaults), observer calls: %d", before, got, ce.obs.count))
+		h.rep.Count("known-replay")
+		mode := "0"
+		if h.notifyReset {
+			mode = "1"
+		}
+		h.add(check{line: "M notifyreset " + mode, want: "ok"})
 	}
 	for _, w := range wits {
 		dir, path := h.newDir()
